@@ -79,3 +79,26 @@ Print Assumptions C04_reset_heals.
 Theorem C04_non_object_frames_harmless : forall s s', wstep s WFrame = Some s' -> s' = s.
 Proof. exact non_object_frames_harmless. Qed.
 Print Assumptions C04_non_object_frames_harmless.
+
+(* "when the server quiesces the cache equals the server state within the
+   reconnect delay, not the refresh period": a cache equal to the accepted view
+   of the server at the version of a list, applying the later log entries in
+   order, equals the accepted view at the end; composed with the pipeline: at
+   quiescence, with nothing lost since the last list, the controller's cache is
+   the server's accepted view *)
+From KC Require Import CacheSpec CacheProps Controller ControllerProps WatchConverges.
+Theorem C04_watch_in_order_converges : forall F l2 l1 c,
+  log_ok (l1 ++ l2) -> wf_cache c ->
+  (forall k, clookup k c = accepted_view F l1 k) ->
+  forall k, clookup k (fold_left (fun c ev => fst (do_update F c ev)) l2 c) = accepted_view F (l1 ++ l2) k.
+Proof. exact watch_in_order_converges. Qed.
+Print Assumptions C04_watch_in_order_converges.
+
+Theorem C04_watch_quiescent_is_server_state : forall F l1 l2 c0 cap acts s (entry : nat -> event),
+  log_ok (l1 ++ l2) -> wf_cache c0 ->
+  (forall k, clookup k c0 = accepted_view F l1 k) ->
+  wrun (winit cap) acts = Some s -> wquiescent s = true -> w_lost s = 0 ->
+  map entry (wseq (w_base s) (w_n s - w_base s)) = l2 ->
+  forall k, clookup k (cache_after F c0 entry (w_applied s)) = accepted_view F (l1 ++ l2) k.
+Proof. exact watch_quiescent_is_server_state. Qed.
+Print Assumptions C04_watch_quiescent_is_server_state.
